@@ -45,6 +45,8 @@ func timeRelHook(o absint.OrderOracle) callHook {
 }
 
 func runC18(c *core.Ctx) {
+	c.Rule("TIMEEQ", "time.Time values are compared with Equal/Before/After, never with ==")
+	checkTimeEquality(c, "TIMEEQ", "execution", "execution/nodes", "octosql", "aggregates", "table_valued_functions", "outputs", "functions", "datasources")
 	c.Rule("EMIT", "event-time buffer releases exactly the due items, in order")
 	c.Rule("ORD1", "flush up to the watermark before forwarding it")
 	c.Rule("ORD2", "final flush before the successful return")
